@@ -13,10 +13,10 @@ variable {K : Type} [Field K]
 
 /-! ## 1. Elements -/
 
-/-- a series one-port with Thévenin form v = Voc + Z i is the B model with matrix `B_Zseries Z`
-    and source vector (−Voc, 0) -/
+/-- a series one-port with Thévenin form v = Voc + Z i (its + terminal at the output side) is the B model with
+    matrix `B_Zseries Z` and source vector (Voc, 0): V2 = V1 − Z I1 + Voc -/
 theorem series_elem (R : K → K → Prop) (Z Voc : K) (hR : ∀ v i, R v i ↔ v = Voc + Z * i) (p : Port K) :
-    SeriesElem R p ↔ relBs (B_Zseries Z) (-Voc) 0 p := by
+    SeriesElem R p ↔ relBs (B_Zseries Z) Voc 0 p := by
   obtain ⟨V1, I1, V2, I2⟩ := p
   simp only [SeriesElem, relBs, B_Zseries, hR]
   constructor <;> (rintro ⟨h1, h2⟩; constructor <;> grind)
@@ -29,20 +29,13 @@ theorem Series_matrix (R : K → K → Prop) (op : OneP K) (hR : ∀ v i, R v i 
   simp only [SeriesElem, rel, lin, TP_Series, B_Zseries, hR]
   constructor <;> (rintro ⟨h1, h2⟩; constructor <;> grind)
 
-/- FULL STATEMENT (fails, finding C07-d): `Series(OP)` sets V2b = +Voc, the element needs −Voc.
-   theorem Series_sources (hR : ∀ v i, R v i ↔ v = op.Voc + op.Z * i) :
-       SeriesElem R p ↔ relBs (TP_Series op).B (TP_Series op).V2b (TP_Series op).I2b p          -/
-/-- what holds of the generated source vector on the current tree: it is right up to the sign of
-    Voc.  Stated as a disjunction (full statement ∨ sign-flipped statement) and proved by whichever
-    branch the regenerated definition satisfies, so that the obligation survives the repair of
-    finding C07-d; WHICH branch holds is decided on the real code by the oracle (`series-V2b-sign`). -/
-theorem Series_sources_partial (R : K → K → Prop) (op : OneP K)
-    (hR : ∀ v i, R v i ↔ v = op.Voc + op.Z * i) :
-    (∀ p, SeriesElem R p ↔ relBs (TP_Series op).B (TP_Series op).V2b (TP_Series op).I2b p) ∨
-    (∀ p, SeriesElem R p ↔ relBs (TP_Series op).B (-(TP_Series op).V2b) (TP_Series op).I2b p) := by
-  first
-    | exact Or.inl (fun p => by simpa [TP_Series] using series_elem R op.Z op.Voc hR p)
-    | exact Or.inr (fun p => by simpa [TP_Series] using series_elem R op.Z op.Voc hR p)
+/-- **Series_sources**: matrix AND source vector built by `Series(OP)` are those of the physical element as its
+    netlist draws it.  (Before the repair of finding C07-d the generated netlist had the one-port the other way
+    round and only a sign-flipped `…_partial` version held.) -/
+theorem Series_sources (R : K → K → Prop) (op : OneP K)
+    (hR : ∀ v i, R v i ↔ v = op.Voc + op.Z * i) (p : Port K) :
+    SeriesElem R p ↔ relBs (TP_Series op).B (TP_Series op).V2b (TP_Series op).I2b p := by
+  simpa [TP_Series] using series_elem R op.Z op.Voc hR p
 
 /-- **Shunt_sound**: matrix and source vector built by `Shunt(OP)` are those of the physical
     element with Norton form i = Y v − Isc -/
